@@ -43,7 +43,7 @@ m = b_manager.BanditManager(b_config.BanditConfig(spec["config"]), "file", profi
 m.discover_files([spec["file"]]); m.run_tests()
 out = {"findings": sorted([r.test_id, r.severity, r.confidence, r.lineno, list(r.linerange), r.col_offset, r.text] for r in m.results), "reports": {}}
 for fmt in spec["formats"]:
-    p = spec["file"] + ".ref." + fmt
+    p = sys.argv[1] + ".ref." + fmt
     try:
         m2 = b_manager.BanditManager(b_config.BanditConfig(spec["config"]), "file", profile=prof)
         m2.discover_files([spec["file"]]); m2.run_tests()
